@@ -23,6 +23,7 @@ from pycel.excelutil import (
     coerce_to_string,
     ERROR_CODES,
     flatten,
+    number_to_text,
     VALUE_ERROR,
 )
 from pycel.lib.date_time import DateTimeFormatter
@@ -462,7 +463,7 @@ def left(text, num_chars=1):
 def len_(arg):
     # Excel reference: https://support.microsoft.com/en-us/office/
     #   len-lenb-functions-29236f94-cedc-429d-affd-b5e33d2c67cb
-    return 0 if arg is None else len(str(arg))
+    return 0 if arg is None else len(number_to_text(arg))
 
 
 # def lenb(text):
